@@ -11,6 +11,11 @@ use std::hash::{Hash, Hasher};
 
 pub mod c01;
 pub mod c02;
+pub mod c03;
+pub mod c04;
+pub mod c05;
+pub mod c16;
+pub mod docs;
 
 #[derive(Clone, Debug)]
 pub struct Cfg {
@@ -280,6 +285,10 @@ pub fn lookup(prop: &str) -> Option<PropFn> {
     match prop {
         "C01" => Some(c01::run),
         "C02" => Some(c02::run),
+        "C03" => Some(c03::run),
+        "C04" => Some(c04::run),
+        "C05" => Some(c05::run),
+        "C16" => Some(c16::run),
         _ => None,
     }
 }
